@@ -12,6 +12,7 @@
 From Coq Require Import Arith List Bool.
 From Mpc Require Import Circuit.Pool Circuit.PoolProof.
 Import ListNotations.
+From Mpc Require Gen.State Base.StateExpected Base.StateCheck Base.StatePkgs.
 
 (* No scratch is owned by two live handles (a handle is live until Release is
    called on it), nor owned by a live handle and pooled at once, nor owned or
@@ -173,3 +174,16 @@ Theorem C17_double_put_refuted :
   s_pool (run_from (init_cfg true false dput_progs) (firstn 4 dput_sched)) 0 = [0; 0].
 Proof. exact double_put_refuted. Qed.
 Print Assumptions C17_double_put_refuted.
+
+(* STATE INVENTORY (finite obligation on the model regenerated from the source, checked by
+   computation).  The struct fields and package-level variables of the Go packages this
+   property is anchored in — circuit — as emitted from /repo's current
+   source by harness/gen_state.go (Gen/State.v) are exactly those the models above were written
+   against (Base/StateExpected.v).  A new field or variable (a cache, a memo, a pool, a counter,
+   a changed field type) is state the models do not have: this obligation then breaks and the
+   property is no longer shown to hold until the change has been reviewed against the model. *)
+Theorem C17_state_inventory :
+  Mpc.Base.StateCheck.state_unchanged Mpc.Gen.State.state_inventory Mpc.Base.StateExpected.expected_state
+    Mpc.Base.StatePkgs.pkgs_C17 = true.
+Proof. vm_compute. reflexivity. Qed.
+Print Assumptions C17_state_inventory.
